@@ -71,6 +71,7 @@ def run(ctx, col, tier):
     col.guard(c13.lens_cells, ctx, col)
     col.guard(c13.concentric, ctx, col)
     col.guard(c13.helpers, ctx, col)
+    col.guard(c13.root_count, ctx, col)
     col.guard(ladder, ctx, col)
 
 
